@@ -136,6 +136,7 @@ def run(rep, tier):
     rep.evaluations += len(impl_cases) + len(uniq)
     rep.compared += len(impl_cases)
     rep.distinct.update(impl_cases)
+    common.attribute_panics(rep, "L3", impl_cases, io)
     rep.exhaustive = True
     for i in (0, 5, len(impl_cases) // 3, len(impl_cases) // 2, len(impl_cases) - 1):
         rep.sample({"lane": "L3", "impl_case": impl_cases[i], "impl": io[i], "model": mo[model_cases[i]],
